@@ -32,6 +32,43 @@ ALL_OPTS = [dict(math_mode=m, strict_latex_spaces=s, keep_comments=c, keep_brace
             for m in MATH_MODES for s in SPACES for c in KEEPC for b in KEEPB for f in FILL]
 
 
+# documented option values outside the five-key grid above (constructor documentation of
+# LatexNodes2Text): aliases, None, dictionaries (also nested for equations), the deprecated
+# spellings that are "still accepted", small / large fill widths, minimum group length
+EXTRA_OPTS = [
+    {'strict_latex_spaces': 'default'}, {'strict_latex_spaces': 'on'},
+    {'strict_latex_spaces': 'off'}, {'strict_latex_spaces': None},
+    {'strict_latex_spaces': {'between-macro-and-chars': True}},
+    {'strict_latex_spaces': {'after-comment': True, 'between-latex-constructs': True}},
+    {'strict_latex_spaces': {'in-equations': {'between-macro-and-chars': True}}},
+    {'strict_latex_spaces': {'in-equations': False, 'between-latex-constructs': True}},
+    {'strict_latex_spaces': {'in-equations': True}},
+    {'keep_inline_math': True}, {'keep_inline_math': False},
+    {'keep_braced_groups': True, 'keep_braced_groups_minlen': 0},
+    {'keep_braced_groups': True, 'keep_braced_groups_minlen': 3},
+    {'fill_text': 1}, {'fill_text': 2}, {'fill_text': 5}, {'fill_text': 200},
+    {'fill_text': False}, {'text_replacements': []},
+    {'math_mode': 'verbatim', 'keep_comments': True, 'fill_text': 3},
+    {},
+]
+# documents for the option-value sweep and the call histories on one converter object
+OPT_DOCS = [
+    'a \\textbf{b} {c d} $x^2 \\alpha y$ %k\n e\n\n\\[ \\frac{1}{2} \\]',
+    '\\begin{itemize}\\item a \\item[b] {c}\\end{itemize} ``q\'\' --- \\&',
+    '\\alpha x\\beta{} y {\\it z} \\begin{equation} a %c\n= b \\end{equation}',
+    '{\\\'e}tonnant {\\\'etonnant} a  b   c\n d',
+    '', ' ', '{', '$', '\\',
+]
+HISTORIES = [
+    ['\\title{T $x$}', '\\maketitle'],
+    ['\\title{T}\\author{A \\and B}\\date{\\today}', 'x\\maketitle y'],
+    ['\\title', '\\maketitle'], ['\\author{}', '\\date', '\\maketitle'],
+    ['\\maketitle', '\\title{a}', '\\maketitle'],
+    ['\\title{\\textbf{a}\\\\ b}\\maketitle'], ['\\date{\\today}\\maketitle\\maketitle'],
+    ['\\title{a', '\\maketitle'], ['\\author{%\n}', '\\maketitle'],
+]
+
+
 def pairwise_opts():
     """Greedy pairwise-covering subset of ALL_OPTS (deterministic)."""
     keys = ['math_mode', 'strict_latex_spaces', 'keep_comments', 'keep_braced_groups', 'fill_text']
@@ -166,6 +203,8 @@ def plan(tier, seed):
     shards = [('names', k, optmode) for k in range(NSHARDS)]
     shards += [('soup', L, k, optmode) for k in range(NSHARDS)]
     shards += [('docs', ndocs // NSHARDS, seed * 1000 + k, optmode) for k in range(NSHARDS)]
+    shards += [('optvalues', k) for k in range(4)]
+    shards += [('pairs', k, 1 if tier == 'quick' else 8) for k in range(NSHARDS)]
     if tier != 'quick':
         shards += [('fuzz', FUZZ_RUNS, seed * 100 + k + 1) for k in range(NSHARDS)]
     macros, envs = names()
@@ -177,7 +216,7 @@ def plan(tier, seed):
                        'soup_len': L, 'documents': ndocs},
             'required_classes': ['names:macro', 'names:environment', 'soup', 'doc',
                                  'opt:math_mode=remove', 'opt:fill_text=20',
-                                 'opt:keep_comments=True']}
+                                 'opt:keep_comments=True', 'optvalues', 'history', 'two-names']}
 
 
 def convert(src, opts, res, case):
@@ -210,8 +249,92 @@ def fuzz_case(s, i):
     return {'kind': 'src', 'src': s, 'opts': ALL_OPTS[i % len(ALL_OPTS)]}
 
 
+def convert_new(src, opts, res, case, obj=None):
+    """like convert() but with a converter built for this case (construction is part of the
+    call) or a given one (histories)"""
+    import warnings
+    from pylatexenc.latex2text import LatexNodes2Text
+    res.case()
+    try:
+        with warnings.catch_warnings():
+            warnings.simplefilter('ignore')
+            conv = obj if obj is not None else LatexNodes2Text(**opts)
+            with monitor.budget(len(src)):
+                out = conv.latex_to_text(src)
+    except monitor.NonTermination as e:
+        res.fail(monitor.nonterm_key(e), 'latex_to_text does not terminate on %r' % src, case)
+        return None
+    except Exception as e:
+        res.fail(exc_key(e), exc_detail(e) + ' on %r with %r' % (src, opts), case)
+        return None
+    if not isinstance(out, str):
+        res.fail('c07:not-a-string', 'latex_to_text returned %r for %r' % (type(out).__name__, src),
+                 case)
+    return out
+
+
+def run_history(hist, opts, res):
+    import warnings
+    from pylatexenc.latex2text import LatexNodes2Text
+    case = {'kind': 'history', 'history': hist, 'opts': opts}
+    try:
+        with warnings.catch_warnings():
+            warnings.simplefilter('ignore')
+            conv = LatexNodes2Text(**opts)
+    except Exception as e:
+        res.fail(exc_key(e), exc_detail(e), case)
+        return
+    for src in hist:
+        convert_new(src, opts, res, case, obj=conv)
+    res.nontriv((repr(hist), repr(opts)))
+    res.label('history', case)
+
+
+def two_name_sources(k, per_name):
+    """deterministic two-name documents: every known macro name followed by / wrapped around
+    pseudo-randomly chosen other names (so that one converter sees several names in one call)"""
+    import zlib
+    macros, envs = names()
+    ms = sorted(macros.items())
+    for i, (n, a) in enumerate(ms):
+        if i % NSHARDS != k:
+            continue
+        for j in range(per_name):
+            h = zlib.crc32(('%s/%d' % (n, j)).encode())
+            n2, a2 = ms[h % len(ms)]
+            n3, a3 = ms[(h >> 8) % len(ms)]
+            if n in ('verb', 'input', 'include') or n2 in ('verb', 'input', 'include') \
+                    or n3 in ('verb', 'input', 'include'):
+                continue
+            x, y, z = '\\' + n + _args(a, True), '\\' + n2 + _args(a2, True), '\\' + n3 + _args(a3, False)
+            yield x + y + ' ' + z
+            yield '\\' + n + _args(a, True).replace('{x}', '{' + y + '}', 1) + z
+
+
 def run_shard(shard, res):
     kind = shard[0]
+    if kind == 'optvalues':
+        k = shard[1]
+        for i, o in enumerate(EXTRA_OPTS):
+            if i % 4 != k:
+                continue
+            res.label('optvalue:' + repr(sorted(o.items()))[:60])
+            for src in OPT_DOCS:
+                convert_new(src, o, res, {'kind': 'src-new', 'src': src, 'opts': o})
+                res.nontriv((src, repr(o)))
+            for hist in HISTORIES:
+                run_history(hist, o, res)
+        res.label('optvalues')
+        return
+    if kind == 'pairs':
+        _, k, per_name = shard
+        opts = pairwise_opts()
+        for i, src in enumerate(two_name_sources(k, per_name)):
+            o = opts[i % len(opts)]
+            convert(src, o, res, {'kind': 'src', 'src': src, 'opts': o})
+            res.nontriv((src, repr(o)))
+        res.label('two-names')
+        return
     if kind == 'fuzz':
         from .. import fuzz
         fuzz.campaign(ID, shard[1], shard[2], res)
@@ -263,6 +386,12 @@ def run_shard(shard, res):
 
 
 def check_case(case, res):
+    if case['kind'] == 'src-new':
+        convert_new(case['src'], case['opts'], res, case)
+        return
+    if case['kind'] == 'history':
+        run_history(case['history'], case['opts'], res)
+        return
     src = case['src'] if case['kind'] == 'src' else ''.join(case['tokens'])
     convert(src, case['opts'], res, case)
     if 'template' not in case and '\\' in src:
@@ -276,6 +405,9 @@ def minimise(case, key):
         return key in r.failures
     if case['kind'] == 'soup':
         return dict(case, tokens=ddmin(case['tokens'], lambda t: holds(dict(case, tokens=list(t)))))
+    if case['kind'] == 'history':
+        return dict(case, history=ddmin(case['history'],
+                                        lambda h: holds(dict(case, history=list(h)))))
     from ..models import minitok
     src = case['src']
     toks = [src[a:b] for _, a, b in minitok.tokens(src)]
